@@ -398,4 +398,252 @@ example :
       [.next Ctx.bg 1, .next Ctx.bg 2, .error Ctx.bg (.user 1), .next Ctx.bg 3]).out
     = [.complete (Ctx.bg.tag 4)] := by decide
 
+/-! ### Head -/
+
+theorem head_spec (mode : SrcMode) (sub : Ctx) (raw : List (Notif α)) :
+    (runOp (headM (α := α)) mode sub raw).out = Spec.head (values raw) (ending raw) := by
+  rw [runOp_out_plain _ _ _ _ rfl (fun _ _ => rfl)]
+  cases values raw with
+  | nil => cases ending raw <;> rfl
+  | cons x ps =>
+    obtain ⟨c, v⟩ := x
+    show gate (([Notif.next c v, Notif.complete c] ++ headM.emitsV () ps) ++ _) = _
+    rw [List.append_assoc, gate_append_of_term _ _ rfl]
+    rfl
+
+/-- the first value and a completion with its context; later values and the error are refused -/
+example :
+    (runOp headM .hot Ctx.bg
+      [.next (Ctx.bg.tag 1) 5, .next (Ctx.bg.tag 2) 6, .error Ctx.bg (.user 1), .next Ctx.bg 7]).out
+    = [.next (Ctx.bg.tag 1) 5, .complete (Ctx.bg.tag 1)] := by decide
+
+/-- `ErrHeadEmpty` when an empty source completes -/
+example :
+    (runOp (headM (α := Nat)) .sync Ctx.bg [.complete (Ctx.bg.tag 1), .next Ctx.bg 7]).out
+    = [.error (Ctx.bg.tag 1) (.sentinel 1)] := by decide
+
+/-! ### Tail -/
+
+theorem tailM_emitsV (s : Option (Ctx × α)) (vs : List (Ctx × α)) : tailM.emitsV s vs = [] := by
+  induction vs generalizing s with
+  | nil => rfl
+  | cons x ps ih => obtain ⟨c, v⟩ := x; exact ih _
+
+theorem tailM_afterV (s : Option (Ctx × α)) (vs : List (Ctx × α)) :
+    tailM.afterV s vs = vs.getLast?.or s := by
+  induction vs generalizing s with
+  | nil => rfl
+  | cons x ps ih =>
+    obtain ⟨c, v⟩ := x
+    have hstep : tailM.afterV s ((c, v) :: ps) = tailM.afterV (some (c, v)) ps := rfl
+    rw [hstep, ih, List.getLast?_cons]
+    cases ps.getLast? <;> rfl
+
+theorem tail_spec (mode : SrcMode) (sub : Ctx) (raw : List (Notif α)) :
+    (runOp (tailM (α := α)) mode sub raw).out = Spec.tail (values raw) (ending raw) := by
+  rw [runOp_out_plain _ _ _ _ rfl (fun _ _ => rfl)]
+  have hinit : (tailM (α := α)).init = none := rfl
+  rw [hinit, tailM_emitsV, tailM_afterV, Option.or_none]
+  cases ending raw with
+  | never => rfl
+  | error c e => rfl
+  | complete c =>
+    unfold Spec.tail
+    cases (values raw).getLast? <;> rfl
+
+/-- the last value with its stored context, then the completion with the completion's context -/
+example :
+    (runOp tailM .sync Ctx.bg
+      [.next (Ctx.bg.tag 1) 5, .next (Ctx.bg.tag 2) 6, .next (Ctx.bg.tag 3) 7,
+       .complete (Ctx.bg.tag 4), .next Ctx.bg 8, .error Ctx.bg (.user 1)]).out
+    = [.next (Ctx.bg.tag 3) 7, .complete (Ctx.bg.tag 4)] := by decide
+
+/-- `ErrTailEmpty` on an empty source; an error is forwarded alone -/
+example :
+    (runOp (tailM (α := Nat)) .hot Ctx.bg [.complete (Ctx.bg.tag 1), .next Ctx.bg 7]).out
+    = [.error (Ctx.bg.tag 1) (.sentinel 2)] := by decide
+example :
+    (runOp tailM .hot Ctx.bg [.next Ctx.bg 7, .error (Ctx.bg.tag 1) (.user 3), .complete Ctx.bg]).out
+    = [.error (Ctx.bg.tag 1) (.user 3)] := by decide
+
+/-! ### First -/
+
+theorem firstM_gate (p : Pred α) (i : Nat) (vs : List (Ctx × α)) (rest : List (Notif α)) :
+    gate ((firstM p).emitsV i vs ++ rest) =
+      match (vs.zipIdx i).find? (fun q => (p q.1.1 q.1.2 q.2).2) with
+      | some q => [.next (p q.1.1 q.1.2 q.2).1 q.1.2, .complete (p q.1.1 q.1.2 q.2).1]
+      | none => gate rest := by
+  induction vs generalizing i with
+  | nil => rfl
+  | cons x ps ih =>
+    obtain ⟨c, v⟩ := x
+    have hstep : (firstM p).emitsV i ((c, v) :: ps) =
+        (if (p c v i).2 then [Notif.next (p c v i).1 v, Notif.complete (p c v i).1] else []) ++
+          (firstM p).emitsV (i + 1) ps := rfl
+    rw [hstep, List.zipIdx_cons, List.find?_cons]
+    cases hp : (p c v i).2
+    · simp only [Bool.false_eq_true, if_false, List.nil_append]
+      exact ih (i + 1)
+    · simp only [if_true]
+      rw [List.append_assoc, gate_append_of_term _ _ rfl]
+      rfl
+
+theorem first_spec (p : Pred α) (mode : SrcMode) (sub : Ctx) (raw : List (Notif α)) :
+    (runOp (firstM p) mode sub raw).out = Spec.first p (values raw) (ending raw) := by
+  rw [runOp_out_plain _ _ _ _ rfl (fun _ _ => rfl)]
+  have hinit : (firstM p).init = 0 := rfl
+  rw [hinit, firstM_gate]
+  unfold Spec.first Spec.firstMatch
+  cases (values raw).zipIdx.find? (fun q => (p q.1.1 q.1.2 q.2).2) with
+  | some q => rfl
+  | none => cases ending raw <;> rfl
+
+/-- the first value ≥ 5 at an odd index, with the predicate's context for value and completion;
+    the second match (8) is refused -/
+example :
+    (runOp (firstM (fun c (v : Nat) i => (c.tag (10 + i), v ≥ 5 && i % 2 == 1))) .sync Ctx.bg
+      [.next Ctx.bg 6, .next (Ctx.bg.tag 1) 2, .next Ctx.bg 3, .next (Ctx.bg.tag 2) 7, .next Ctx.bg 1,
+       .next Ctx.bg 8, .complete Ctx.bg]).out
+    = [.next ((Ctx.bg.tag 2).tag 13) 7, .complete ((Ctx.bg.tag 2).tag 13)] := by decide
+
+/-- `ErrFirstEmpty` when nothing matched -/
+example :
+    (runOp (firstM (fun c (v : Nat) _ => (c.tag 9, v ≥ 5))) .hot Ctx.bg
+      [.next Ctx.bg 1, .next Ctx.bg 2, .complete (Ctx.bg.tag 1), .next Ctx.bg 8]).out
+    = [.error (Ctx.bg.tag 1) (.sentinel 3)] := by decide
+
+/-! ### Last -/
+
+theorem lastM_emitsV (p : Pred α) (s : Option (Ctx × α) × Nat) (vs : List (Ctx × α)) :
+    (lastM p).emitsV s vs = [] := by
+  induction vs generalizing s with
+  | nil => rfl
+  | cons x ps ih => obtain ⟨c, v⟩ := x; exact ih _
+
+theorem lastM_afterV (p : Pred α) (s : Option (Ctx × α)) (i : Nat) (vs : List (Ctx × α)) :
+    ((lastM p).afterV (s, i) vs).1 =
+      ((((vs.zipIdx i).filter (Spec.holds p)).getLast?).map
+        (fun q => ((p q.1.1 q.1.2 q.2).1, q.1.2))).or s := by
+  induction vs generalizing s i with
+  | nil => rfl
+  | cons x ps ih =>
+    obtain ⟨c, v⟩ := x
+    have hstep : (lastM p).afterV (s, i) ((c, v) :: ps) =
+        (lastM p).afterV (if (p c v i).2 then some ((p c v i).1, v) else s, i + 1) ps := rfl
+    have hh : Spec.holds p ((c, v), i) = (p c v i).2 := rfl
+    rw [hstep, ih, List.zipIdx_cons, List.filter_cons, hh]
+    cases hp : (p c v i).2
+    · simp
+    · simp only [if_true, List.getLast?_cons]
+      cases ((ps.zipIdx (i + 1)).filter (Spec.holds p)).getLast? <;> rfl
+
+theorem last_spec (p : Pred α) (mode : SrcMode) (sub : Ctx) (raw : List (Notif α)) :
+    (runOp (lastM p) mode sub raw).out = Spec.last p (values raw) (ending raw) := by
+  rw [runOp_out_plain _ _ _ _ rfl (fun _ _ => rfl)]
+  have hinit : (lastM p).init = (none, 0) := rfl
+  rw [hinit, lastM_emitsV]
+  cases ending raw with
+  | never => rfl
+  | error c e => rfl
+  | complete c =>
+    have hE : ∀ s, (lastM p).emitsE s (.complete c) =
+        match s.1 with
+        | some (c0, v0) => [.next c0 v0, .complete c0]
+        | none => [.error c (.sentinel 4)] := fun _ => rfl
+    rw [hE, lastM_afterV, Option.or_none]
+    unfold Spec.last
+    cases ((values raw).zipIdx.filter (Spec.holds p)).getLast? <;> rfl
+
+/-- the last even value, emitted and completed with the context the predicate returned for it
+    (not the completion's context) -/
+example :
+    (runOp (lastM (fun c (v : Nat) i => (c.tag (10 + i), v % 2 == 0))) .sync Ctx.bg
+      [.next Ctx.bg 2, .next (Ctx.bg.tag 1) 4, .next Ctx.bg 3, .complete (Ctx.bg.tag 2),
+       .next Ctx.bg 6, .complete Ctx.bg]).out
+    = [.next ((Ctx.bg.tag 1).tag 11) 4, .complete ((Ctx.bg.tag 1).tag 11)] := by decide
+
+/-- `ErrLastEmpty` when nothing matched -/
+example :
+    (runOp (lastM (fun c (v : Nat) _ => (c.tag 9, v % 2 == 0))) .hot Ctx.bg
+      [.next Ctx.bg 1, .next Ctx.bg 3, .complete (Ctx.bg.tag 2), .next Ctx.bg 6]).out
+    = [.error (Ctx.bg.tag 2) (.sentinel 4)] := by decide
+
+/-! ### ElementAt, ElementAtOrDefault -/
+
+/-- both machines react to values in the same way: the counter stops at `n`, every value seen
+    with the counter at `n` is emitted followed by a completion; the gate keeps the first -/
+theorem elementAt_gate (m : Machine Nat α α) (n : Nat)
+    (hm : ∀ k c v, m.onNext k c v = if k = n then (k, [.next c v, .complete c]) else (k + 1, []))
+    (k : Nat) (hk : k ≤ n) (vs : List (Ctx × α)) (rest : List (Notif α)) :
+    gate (m.emitsV k vs ++ rest) =
+      match vs[n - k]? with
+      | some p => [.next p.1 p.2, .complete p.1]
+      | none => gate rest := by
+  induction vs generalizing k with
+  | nil => rfl
+  | cons x ps ih =>
+    obtain ⟨c, v⟩ := x
+    have hstep : m.emitsV k ((c, v) :: ps) = (m.onNext k c v).2 ++ m.emitsV (m.onNext k c v).1 ps := rfl
+    rw [hstep, hm]
+    by_cases hkn : k = n
+    · have h0 : n - k = 0 := by omega
+      rw [if_pos hkn, h0, List.append_assoc, gate_append_of_term _ _ rfl]
+      rfl
+    · have h1 : n - k = (n - (k + 1)) + 1 := by omega
+      rw [if_neg hkn, h1, List.getElem?_cons_succ]
+      exact ih (k + 1) (by omega)
+
+theorem elementAt_spec (n : Nat) (mode : SrcMode) (sub : Ctx) (raw : List (Notif α)) :
+    (runOp (elementAtM n) mode sub raw).out = Spec.elementAt n (values raw) (ending raw) := by
+  rw [runOp_out_plain _ _ _ _ rfl (fun _ _ => rfl)]
+  have hinit : (elementAtM (α := α) n).init = 0 := rfl
+  rw [hinit, elementAt_gate _ n (fun _ _ _ => rfl) 0 (Nat.zero_le _)]
+  unfold Spec.elementAt
+  rw [Nat.sub_zero]
+  cases (values raw)[n]? with
+  | some p => rfl
+  | none => cases ending raw <;> rfl
+
+/-- the value of index 2 and a completion with its context; everything after is refused -/
+example :
+    (runOp (elementAtM 2) .sync Ctx.bg
+      [.next (Ctx.bg.tag 1) 5, .next (Ctx.bg.tag 2) 6, .next (Ctx.bg.tag 3) 7, .next (Ctx.bg.tag 4) 8,
+       .error Ctx.bg (.user 1), .next Ctx.bg 9]).out
+    = [.next (Ctx.bg.tag 3) 7, .complete (Ctx.bg.tag 3)] := by decide
+
+/-- `ErrElementAtNotFound` when the source completes too early -/
+example :
+    (runOp (elementAtM 2) .hot Ctx.bg
+      [.next (Ctx.bg.tag 1) 5, .next (Ctx.bg.tag 2) 6, .complete (Ctx.bg.tag 3), .next Ctx.bg 9]).out
+    = [.error (Ctx.bg.tag 3) (.sentinel 5)] := by decide
+
+theorem elementAtOrDefault_spec (n : Nat) (d : α) (mode : SrcMode) (sub : Ctx) (raw : List (Notif α)) :
+    (runOp (elementAtOrDefaultM n d) mode sub raw).out =
+      Spec.elementAtOrDefault n d (values raw) (ending raw) := by
+  rw [runOp_out_plain _ _ _ _ rfl (fun _ _ => rfl)]
+  have hinit : (elementAtOrDefaultM n d).init = 0 := rfl
+  rw [hinit, elementAt_gate _ n (fun _ _ _ => rfl) 0 (Nat.zero_le _)]
+  unfold Spec.elementAtOrDefault
+  rw [Nat.sub_zero]
+  cases (values raw)[n]? with
+  | some p => rfl
+  | none => cases ending raw <;> rfl
+
+/-- found: same as ElementAt -/
+example :
+    (runOp (elementAtOrDefaultM 1 0) .hot Ctx.bg
+      [.next (Ctx.bg.tag 1) 5, .next (Ctx.bg.tag 2) 6, .next (Ctx.bg.tag 3) 7, .complete Ctx.bg]).out
+    = [.next (Ctx.bg.tag 2) 6, .complete (Ctx.bg.tag 2)] := by decide
+
+/-- not found: the fallback and the completion, both with the completion's context;
+    an error is forwarded alone -/
+example :
+    (runOp (elementAtOrDefaultM 2 42) .sync Ctx.bg
+      [.next (Ctx.bg.tag 1) 5, .next (Ctx.bg.tag 2) 6, .complete (Ctx.bg.tag 3), .next Ctx.bg 9]).out
+    = [.next (Ctx.bg.tag 3) 42, .complete (Ctx.bg.tag 3)] := by decide
+example :
+    (runOp (elementAtOrDefaultM 2 42) .sync Ctx.bg
+      [.next (Ctx.bg.tag 1) 5, .error (Ctx.bg.tag 3) (.user 2), .next Ctx.bg 9]).out
+    = [.error (Ctx.bg.tag 3) (.user 2)] := by decide
+
 end Ro
